@@ -2,7 +2,8 @@
 from common import *
 import scripts
 
-THEOREMS = ['source_independence', 'source_independence_closed', 'capture_one_independent', 'octet_string_independent', 'stingy_conforming', 'chunked_conforming', 'generic_read_independent', 'skip_all_independent', 'take_int_independent']
+THEOREMS = ['source_independence', 'Bcder.Props.C07b.ossPol_conforming', 'Bcder.Props.C07b.request_exact', 'Bcder.Props.C07b.request_sim', 'Bcder.Props.C07b.slice_sim', 'Bcder.Props.C07b.advance_sim', 'Bcder.Props.C07b.advance_past', 'Bcder.Props.C07b.calls_sim', 'Bcder.Props.C07b.oss_is_conforming_source', 'source_independence_closed', 'capture_one_independent', 'octet_string_independent', 'stingy_conforming', 'chunked_conforming', 'generic_read_independent', 'skip_all_independent', 'take_int_independent']
+EXTRA_MODULES = ['C07b']
 RULE = ("every generated (mode, input, script) case — generic reads, optional/tag-selective reads, skips, captures, typed readers for all "
         "value types, on well-formed and mutated inputs — is executed over SliceSource, BytesSource (by &mut and by value), Constructed::decode, "
         "an OCTET STRING used as the source (primitive and segmented into 1/3/1000-octet pieces), and contract-asserting streaming sources that "
@@ -43,7 +44,24 @@ def gen(tier, rng):
             r = "run %s %s %s %s" % (m, src, hx(d), sc)
             out.append(r)
             GROUP[r] = base
+    # ---- the OCTET STRING source call by call (C07b): every grant and every slice shown, compared with the
+    # model of OctetStringSource and with the abstract conforming source under the policy ossPol
+    for _ in range(2500 if tier == "quick" else 25000):
+        data = bytes(rng.randrange(256) for _ in range(rng.choice([0, 1, 2, 3, 5, 9, 17])))
+        form = rand_os_form(rng, data)
+        calls = []
+        for _ in range(rng.randrange(1, 11)):
+            if rng.random() < 0.55:
+                calls.append("r%d" % rng.choice([0, 1, 1, 2, 3, 4, 5, 8, 16, 100]))
+            else:
+                calls.append("a%d" % rng.choice([0, 1, 1, 2, 3, 100]))
+        out.append("oss.calls ber %s %s" % (hx(form), " ".join(calls)))
+        if rng.random() < 0.2:
+            out.append("oss.calls der %s %s" % (hx(b"\x04" + length(len(data)) + data), " ".join(calls)))
     return out
+
+def has_spec(r):
+    return r.startswith("oss.calls")
 
 def relational(reqs, answers):
     fails = []
@@ -65,4 +83,4 @@ def nontrivial(req, ans):
 
 LEVEL = "proof"
 LEVEL_TEXT = "Lean 4 theorem by induction over programs (run_sim, Lemmas/Stream.lean): for EVERY routine - capture-free or capturing (Constructed::capture*, constructed OCTET STRING decoding; nested captures included) -, every input, limit and EVERY grant policy obeying the Source contract, the run over the streaming source yields the same value / the same rejection and the same remaining input as the run over a slice, and never looks at, extracts or advances over ungranted octets (source_independence; source_independence_closed: when no capture is left open the base source stands exactly where the slice does). The stream layer models open CaptureSources literally with respect to the base source: it is not advanced while a capture is open, every request reaches it with the captured offset added (pos + len), slices are taken behind that offset, into_bytes advances it when the outermost capture ends (sim_capBegin, sim_capEnd, adv_sim). Instantiated for value-by-value reading, skip_all, all fixed-width INTEGER readers, capture_one and OCTET STRING decoding in every form (capture_one_independent, octet_string_independent; kernel-evaluated runs over the stingy and the one-octet-at-a-time source). Correspondence: every case over 19 real Source implementations incl. contract-asserting stingy/chunked/over-granting ones and OctetString as a source; for the streaming kinds the model answers from the stream layer itself, captures included."
-LEVEL_NOTE = "Trusted: Lean 4.33 kernel; axioms propext, Classical.choice, Quot.sound only; the hand-written model (lean/Bcder/Model) tied to /repo on every run by differential correspondence (tools/check.py, harness/, lean/Driver.lean); reference definitions lean/Bcder/Spec. Modelled rather than proved in the stream layer: the limits of the LimitedSources that enclose an open CaptureSource are not applied a second time to requests (the library keeps inner limit + captured offset <= outer limit: capture copies the limit, readers only narrow and restore it; under that discipline they cut nothing off) - the generous layer does the same, and the correspondence runs every capture case over limited parents. The hypothesis 'the slice run does not panic' is discharged by C01. OctetStringSource: that its request/advance meet the Source contract over the concatenated content is C16.request_inv / advance_inv (every request grants min(len, pending) or more, the slice is a prefix of the pending content, advance drops exactly that many octets); it is not instantiated as a grant policy of the stream layer, the os.views src= comparison drains it as a source on every run."
+LEVEL_NOTE = "Trusted: Lean 4.33 kernel; axioms propext, Classical.choice, Quot.sound only; the hand-written model (lean/Bcder/Model) tied to /repo on every run by differential correspondence (tools/check.py, harness/, lean/Driver.lean); reference definitions lean/Bcder/Spec. Modelled rather than proved in the stream layer: the limits of the LimitedSources that enclose an open CaptureSource are not applied a second time to requests (the library keeps inner limit + captured offset <= outer limit: capture copies the limit, readers only narrow and restore it; under that discipline they cut nothing off) - the generous layer does the same, and the correspondence runs every capture case over limited parents. The hypothesis 'the slice run does not panic' is discharged by C01. OctetStringSource IS one of the conforming sources the theorem quantifies over (C07b): ossPol (the smallest segment boundary covering the request) is a conforming policy, and every sequence of request / slice / advance calls is answered by the model of OctetStringSource exactly as by the abstract source of the stream layer under that policy (request_sim, slice_sim, advance_sim, calls_sim, oss_is_conforming_source; for every octet string whose content is an item sequence, which from_content guarantees: C16); oss.calls compares the real OctetStringSource with both, call by call, on every run."
